@@ -20,6 +20,7 @@ def value_table(C):
     return {
         'Plain': {'i': ints, 'f': floats, 's': strs, 'by': [b'', b'a', b'\x00\xff\'"'], 'b': [True, False], 'v': generic, 'l': lists,
                   't': tuples2, 'd': [{}, {'a': 1}, {'a': (1,), 'b': [1, 2]}, {'é': None}],
+                  'dd': [{}, {'a': 1}, {'a': 1, 'b': 2, 'c': 3}, {'b': 2, 'a': 1}, {'a': 1, 'b': 3}], 'ld': [[{'a': 1}, 3], [{'a': 1, 'b': 2}], [], [{'a': 1, 'b': 2}, 3]],
                   'child': ['LEAF0', 'LEAF1', 'LEAF2'], 'name': ['explicit', 'Plain99', "we'ird"]},
         'Positional': {'i': ints, 's': strs[:5], 'v': generic, 'f': floats[:5], 'name': ['explicit']},
         'KwDefault': {'i': [0, 7, 5], 'v': generic[:10], 'name': ['n1']},
